@@ -103,7 +103,7 @@ void net_forward(Conn *c, int dir, const uint8_t *data, size_t len)
 	NetKnobs *k = &c->knobs;
 	if (!len) return;
 	ensure(&p->buf, &p->alloc, p->wr + len);
-	memcpy(p->buf + p->wr, data, len);
+	sim_copy(p->buf + p->wr, data, len);
 	size_t pos = p->wr, end = p->wr + len;
 	p->wr = end;
 	int style = k->seg_style;
@@ -269,7 +269,7 @@ ssize_t net_send(int fd, const void *buf, size_t len)
 		g_sim.probes[PR_SHORT_WRITE]++;
 	}
 	ensure(&p->sent, &p->sent_alloc, p->sent_len + n);
-	memcpy(p->sent + p->sent_len, buf, n);
+	sim_copy(p->sent + p->sent_len, buf, n);
 	p->sent_len += n;
 	p->n_send++;
 	net_parse_records(p);
@@ -319,7 +319,7 @@ ssize_t net_recv(int fd, void *buf, size_t len)
 	}
 	if (n > len) n = len;
 	else if (n < len) { p->n_short_rd++; g_sim.probes[PR_SHORT_READ]++; }
-	memcpy(buf, p->buf + p->rd, n);
+	sim_copy(buf, p->buf + p->rd, n);
 	/* receive-side framing, to know whether the reader is at a record boundary */
 	for (size_t i = 0; i < n; i++) {
 		if (rx->body_left) { size_t m = n - i < rx->body_left ? n - i : rx->body_left; rx->body_left -= m; i += m - 1; continue; }
